@@ -250,6 +250,19 @@ CHECKS["C07"] = dict(
                        "and is not decided. Unknown kinds are silent (coverage and a typed-node floor are reported).",
 )
 
+CHECKS["C08"] = dict(
+    level="other",
+    technique="static analysis: affine-kind inference over field-space values (location / displacement / per-field number), seeded by API names; "
+              "constant-index rule along the field axis; axis-role checks; term-level equivariance of the tanh ansatz and of the kinetic term",
+    text="Covariance under relabelling is a relation between runs; its structural necessary conditions are decided for every model at once: "
+         "field-space locations are only combined affinely (P - P, P + V, number * V) -- the non-affine uses on today's tree are a triaged "
+         "table of two diagnostic/tolerance sites; no constant index is applied along the field axis except the gauge choice offsets[1:] "
+         "and its inverse; reductions over fields use the field axis and profile concatenations the point axis; per-field scales are "
+         "length-checked; the tanh ansatz is proved equivariant under translation and reflection of the vevs, the kinetic term depends on "
+         "them only through vevHighT - vevLowT, and the grid envelope uses max/min over all fields without any vev.",
+    note=COMMON_NOTE + " Equality of results between relabelled runs is not decided; model-supplied callbacks (potential, masses) are outside the package.",
+)
+
 NOT_APPLICABLE = {}
 
 ENGINES = [
